@@ -338,6 +338,7 @@ func (p *sdlParser) readSchema(extend bool) (Type, error) {
 	}
 	if err == nil && !extend {
 		p.root.schema = schema
+		p.root.implicitSchema = false
 	}
 	return schema, err
 }
